@@ -83,6 +83,24 @@ def inClassC20 (p : Policy) : Bool :=
   (p.elsAndAttrs.all fun (_, r) => !rulesHavePatternOnRewritten r) &&
   (p.elsMatchingAndAttrs.all fun (_, r) => !rulesHavePatternOnRewritten r)
 
+
+/-! ### C20: the priority of a kept declaration -/
+
+/-- delete every `!important` (with the white space before it and inside it, any letter case) from a byte string -/
+def dropImportantAux : Nat → Bytes → Bytes
+  | 0, s => s
+  | _, [] => []
+  | fuel + 1, c :: cs =>
+    let afterWs := (c :: cs).dropWhile fun x => x == 32 || x == 9 || x == 10
+    match afterWs with
+    | 33 :: rest =>
+      let rest' := rest.dropWhile fun x => x == 32 || x == 9 || x == 10
+      if lowerAscii (rest'.take 9) == b!"important" then dropImportantAux fuel (rest'.drop 9)
+      else c :: dropImportantAux fuel cs
+    | _ => c :: dropImportantAux fuel cs
+
+def dropImportant (s : Bytes) : Bytes := dropImportantAux (s.length + 1) s
+
 /-! ### C07: conforming documents -/
 
 /-- rules that apply to attribute `k` of element `el` with the documented shadowing -/
